@@ -68,6 +68,15 @@ def ensure(variant="hook"):
         r = {"wild": os.path.join(td, NIGHTLY_TARGET, "opt", "wild")}
     elif variant == "units":
         src = os.path.join(VERIF, "harness", "units")
+        if REPO != "/repo":
+            # trying the checks against a scratch worktree: build a copy of the harness crate whose
+            # path dependencies point into that worktree
+            copy = os.path.join(BUILD, "units-src")
+            shutil.rmtree(copy, ignore_errors=True)
+            shutil.copytree(src, copy, ignore=shutil.ignore_patterns("target", "Cargo.lock"))
+            ct = os.path.join(copy, "Cargo.toml")
+            open(ct, "w").write(open(ct).read().replace('"/repo/', '"' + REPO.rstrip("/") + "/"))
+            src = copy
         shutil.copyfile(os.path.join(REPO, "Cargo.lock"), os.path.join(src, "Cargo.lock"))
         td = os.path.join(BUILD, "units")
         _cargo(["cargo", "build", "--offline", "--release"],
